@@ -368,6 +368,11 @@ func ReadFloat32ArrayFromBytes(data []byte) ([]float32, error) {
 		values = append(values, math.Float32frombits(uintElement))
 	}
 
+	if err == nil {
+		// The data ends with an incomplete element.
+		return nil, io.ErrUnexpectedEOF
+	}
+
 	if err != io.EOF {
 		return nil, err
 	}
@@ -395,6 +400,11 @@ func ReadFloat64ArrayFromBytes(data []byte) ([]float64, error) {
 
 		uintElement := binary.LittleEndian.Uint64(element)
 		values = append(values, math.Float64frombits(uintElement))
+	}
+
+	if err == nil {
+		// The data ends with an incomplete element.
+		return nil, io.ErrUnexpectedEOF
 	}
 
 	if err != io.EOF {
@@ -437,6 +447,11 @@ func ReadUint8ArrayFromBytes(data []byte) ([]uint8, error) {
 		values = append(values, element[0])
 	}
 
+	if err == nil {
+		// The data ends with an incomplete element.
+		return nil, io.ErrUnexpectedEOF
+	}
+
 	if err != io.EOF {
 		return nil, err
 	}
@@ -463,6 +478,11 @@ func ReadInt8ArrayFromBytes(data []byte) ([]int8, error) {
 		}
 
 		values = append(values, int8(element[0]))
+	}
+
+	if err == nil {
+		// The data ends with an incomplete element.
+		return nil, io.ErrUnexpectedEOF
 	}
 
 	if err != io.EOF {
@@ -493,6 +513,11 @@ func ReadUint16ArrayFromBytes(data []byte) ([]uint16, error) {
 		values = append(values, binary.LittleEndian.Uint16(element))
 	}
 
+	if err == nil {
+		// The data ends with an incomplete element.
+		return nil, io.ErrUnexpectedEOF
+	}
+
 	if err != io.EOF {
 		return nil, err
 	}
@@ -519,6 +544,11 @@ func ReadInt16ArrayFromBytes(data []byte) ([]int16, error) {
 		}
 
 		values = append(values, int16(binary.LittleEndian.Uint16(element)))
+	}
+
+	if err == nil {
+		// The data ends with an incomplete element.
+		return nil, io.ErrUnexpectedEOF
 	}
 
 	if err != io.EOF {
@@ -549,6 +579,11 @@ func ReadUint32ArrayFromBytes(data []byte) ([]uint32, error) {
 		values = append(values, binary.LittleEndian.Uint32(element))
 	}
 
+	if err == nil {
+		// The data ends with an incomplete element.
+		return nil, io.ErrUnexpectedEOF
+	}
+
 	if err != io.EOF {
 		return nil, err
 	}
@@ -575,6 +610,11 @@ func ReadInt32ArrayFromBytes(data []byte) ([]int32, error) {
 		}
 
 		values = append(values, int32(binary.LittleEndian.Uint32(element)))
+	}
+
+	if err == nil {
+		// The data ends with an incomplete element.
+		return nil, io.ErrUnexpectedEOF
 	}
 
 	if err != io.EOF {
@@ -605,6 +645,11 @@ func ReadUint64ArrayFromBytes(data []byte) ([]uint64, error) {
 		values = append(values, binary.LittleEndian.Uint64(element))
 	}
 
+	if err == nil {
+		// The data ends with an incomplete element.
+		return nil, io.ErrUnexpectedEOF
+	}
+
 	if err != io.EOF {
 		return nil, err
 	}
@@ -631,6 +676,11 @@ func ReadInt64ArrayFromBytes(data []byte) ([]int64, error) {
 		}
 
 		values = append(values, int64(binary.LittleEndian.Uint64(element)))
+	}
+
+	if err == nil {
+		// The data ends with an incomplete element.
+		return nil, io.ErrUnexpectedEOF
 	}
 
 	if err != io.EOF {
